@@ -45,5 +45,5 @@ def run(ctx):
     pdo_check.run(ctx, ["C09P"], quick_edges=4000, walks=(30, 1500))
     # per-state gating with every service configured in one node (product model CoFull)
     import full_check
-    full_check.run(ctx, 500 if q else 20000)
+    full_check.run(ctx, 500 if q else 6000)
 VARIANTS = {"default": (), "h0": ("CO_VERIF_SDO_BUF_SEG=3",)}
